@@ -5,4 +5,7 @@ INVARIANT Cl_Len
 INVARIANT Cl_TimeGrid
 INVARIANT Cl_MassBal
 INVARIANT Cl_CompBal
+INVARIANT Ref_StepFluxes
+INVARIANT Ref_IdealPermeance
+INVARIANT Ref_Heats
 CHECK_DEADLOCK FALSE
